@@ -32,8 +32,8 @@ def cfg_fn(rng, ctx):
     depth = 2 if ctx.quick() else int(rng.choice([2, 3]))
     r = rng.random()
     if r < 0.45:
-        return gen.Cfg(depth=depth, root="Static", tuple_addr=0.4)
-    return gen.Cfg(depth=depth + (1 if depth < 3 else 0), root=WRAP, tuple_addr=0.4, weights={"Static": 6.0})
+        return gen.Cfg(depth=depth, root="Static", tuple_addr=0.4, hostile_idx=rng.random() < 0.5, weights={"Switch": 2.0})
+    return gen.Cfg(depth=depth + (1 if depth < 3 else 0), root=WRAP + ["Switch"], tuple_addr=0.4, hostile_idx=rng.random() < 0.6, weights={"Static": 6.0})
 
 
 def _static_under(node, rargs=None):
